@@ -23,8 +23,9 @@
     `string_index_path_is_not_a_getpath` shows the hypothesis cannot be dropped.
   * equality of values is up to the sign of a floating-point zero (`SameVal`): `pathIntact`
     compares float64 with Go's `==`, so a computed `-0.0` at a location holding `0.0` is "intact";
-    `zero_sign_is_not_preserved` is the witness (also observed on the real library:
-    `0.0 | path(-.)` is `[]` while `-.` is `-0` and `getpath([])` is `0`).
+    `zero_sign_is_not_preserved` is the witness (also observed on the real code:
+    `gojq -nc '[0.5-0.5] | [path(.[0] | -.)], [.[0] | -.], [getpath([0])]'` prints `[[0]]`, `[-0]`,
+    `[0]`; jq 1.6 rejects it: "Invalid path expression with result -0").
   * "the corresponding output of `p`" is the output of the evaluation of `p` that `path(p)`
     performs (on `pathStart`, with tracking on).  It is NOT in general the output of `p` run
     without tracking: an invalid-path error caught by `try` makes the two runs differ
@@ -32,10 +33,9 @@
   Hypothesis `Good` (objects have distinct keys, arrays are indexable by a Go `int`) holds of every
   value the implementation can build; `nice_is_good` gives a decidable sufficient condition.
 
-  Helper definitions and lemmas: Proofs/SpecPath{Base,Nav,Comb,Unfold,Inv,Good,Sound}.lean.
+  Helper definitions and lemmas: Proofs/SpecPath{Base,Nav,Comb,Unfold,Inv,Good,Sound,Examples}.lean.
 -/
-import Gojq.Proofs.SpecPathSound
-import Gojq.Generated.BuiltinDefs
+import Gojq.Proofs.SpecPathExamples
 namespace Gojq.C02Path
 open Gojq Gojq.Spec Gojq.C02
 
@@ -121,6 +121,28 @@ theorem path_sound_input (cfg : Cfg) (fuel : Nat) (env : Env) (p : Query) (s : S
         y.v = .arr q ∧ nav s.v q = .ok w ∧ SameVal w x.v :=
   path_sound cfg (worldOf s) (worldOf_good hgood) fuel env p s rfl he (pathStart_pre fuel s hsid).1 h1 h2
 
+/-- (B) for a `path(p)` call ANYWHERE inside a program: `W0` interprets the identities in scope
+    (the `$variables` of the environment, closures included, and the input of the call carry
+    truthful identities) and none of them uses the root number `fuel+1` that `path` gives a root
+    whose identity the model does not know.  (Root numbers are fuel values and fuel decreases
+    along every call chain, so the roots in scope at a call running at fuel `fuel+1` are `0` or
+    larger than `fuel+1`; that reachability fact is not proved here, it is a hypothesis.) -/
+theorem path_sound_anywhere (cfg : Cfg) (W0 : World) (hW0 : ∀ r, Good (W0.ρ r)) (fuel : Nat) (env : Env)
+    (p : Query) (s : St) (hgood : Good s.v) (hs : IdOK W0 s.v s.id) (hsa : AvoidsRoot (fuel+1) s.id)
+    (he : EnvAll (fun v id => IdOK W0 v id ∧ AvoidsRoot (fuel+1) id) env)
+    (h1 : lookupCall "path" 1 env.bs = .none) (h2 : cfg.builtins.find "path" 1 = none) :
+    ∀ (i : Nat) (y : St), (evalCall (fuel+1) cfg env "path" [p] s).outs[i]? = some y →
+      ∃ x q w, (eval fuel cfg env p (pathStart fuel s)).outs[i]? = some x ∧
+        y.v = .arr q ∧ nav s.v q = .ok w ∧ SameVal w x.v :=
+  path_sound cfg (W0.reroot (fuel+1) s.v) (World.reroot_good hW0 _ hgood) fuel env p s rfl
+    (EnvAll.toOK (fun _ _ h => h.1.reroot h.2) env he) (pathStart_id_reroot fuel s hs hsa) h1 h2
+
+example : EnvAll (fun v id => IdOK (worldOf (inputSt inA)) v id ∧ AvoidsRoot (29+1) id) Env.empty
+    ∧ AvoidsRoot (29+1) (inputSt inA).id ∧ IdOK (worldOf (inputSt inA)) (inputSt inA).v (inputSt inA).id := by
+  refine ⟨EnvAll.empty _, ?_, ?_⟩
+  · intro q h; cases h
+  · intro r q h; cases h; exact ⟨inA, rfl, SameVal.rfl' _⟩
+
 /-- (B) as the property states it, with `getpath`: every path `q` emitted by `path(p)` satisfies
     `s.v | getpath(q)` = the corresponding output of `p` (up to the sign of zero), provided no
     proper prefix of `q` leads to a string. -/
@@ -133,6 +155,20 @@ theorem path_sound_getpath (cfg : Cfg) (fuel : Nat) (env : Env) (p : Query) (s :
   intro i y hy
   obtain ⟨x, q, w, hx, hv, hnav, hsame⟩ := path_sound_input cfg fuel env p s hgood hsid he h1 h2 i y hy
   exact ⟨x, q, hx, hv, fun hns => ⟨w, getpath_of_nav _ _ _ hnav hns, hsame⟩⟩
+
+/-- The update operators only touch real locations: every path that `l |= f`, `l = x`, `l op= x`
+    enumerate on the input `s.v` (`evalPaths`, i.e. the outputs of `path(l)`) can be navigated in
+    `s.v`. -/
+theorem update_paths_are_real (cfg : Cfg) (fuel : Nat) (env : Env) (l : Query) (s : St)
+    (hgood : Good s.v) (hsid : ∀ r q, s.id = .known r q → q = []) (he : EnvOK (worldOf s) env)
+    (h1 : lookupCall "path" 1 env.bs = .none) (h2 : cfg.builtins.find "path" 1 = none) :
+    ∀ q ∈ (evalPaths (fuel+2) cfg env l s).1, ∃ w, nav s.v q = .ok w := by
+  intro q hq
+  obtain ⟨i, y, hy, rfl⟩ := evalPaths_mem (fuel+1) cfg env l s q hq
+  obtain ⟨x, q', w, _, hv, hnav, _⟩ :=
+    path_sound_input cfg fuel env l (withCtx none s) hgood hsid he h1 h2 i y hy
+  rw [hv]
+  exact ⟨w, hnav⟩
 
 /-! ### (C) order and completeness -/
 
@@ -158,30 +194,9 @@ theorem paths_complete_order (fuel : Nat) (cfg : Cfg) (env : Env) (p : Query) (s
     are no longer than a Go `int` can index, everywhere in the value. -/
 theorem nice_is_good (v : JV) (h : nice v = true) : Good v := good_of_nice h
 
-/-- the evaluation context with the real jq-defined builtins (`builtin.jq` as generated) -/
-def cfgGo : Cfg := { builtins := ⟨Gojq.Generated.Builtins.builtinGo⟩ }
-def inputSt (v : JV) : St := { v := v, id := .known 0 [] }
-/-- `.a[0]` -/
-def exA0 : Query := .term [] (.mk (.index (.name (B "a"))) [.index (.at (.ofTerm (.number "0")))])
-/-- `..` -/
-def exRecurse : Query := .ofTerm .recurse
-/-- `.a | select(.b)` -/
-def exSelect : Query := .binop [] .pipe (.term [] (.mk (.index (.name (B "a"))) []))
-  (.call "select" [.term [] (.mk (.index (.name (B "b"))) [])])
-/-- `.[0]` -/
-def exIdx0 : Query := .term [] (.mk (.index (.at (.ofTerm (.number "0")))) [])
-/-- `-.` -/
-def exNeg : Query := .ofTerm (.unary .sub (.mk .identity []))
-/-- `try ([1] | .[0])` -/
-def exTry : Query := .ofTerm (.try_ (.binop [] .pipe (.ofTerm (.array (some (.ofTerm (.number "1"))))) exIdx0) none)
-/-- `{"a": [7, 8]}` -/
-def inA : JV := .obj [(B "a", .arr [jvInt 7, jvInt 8])]
-/-- `{"a": {"b": true}}` -/
-def inAB : JV := .obj [(B "a", .obj [(B "b", .bool true)])]
-
 /-- the hypotheses of (A)/(B)/(C) hold for the program input `{"a":[7,8]}` in the empty
     environment with the real builtins (non-vacuity of `eval_path_inv`, `eval_path_inv_getpath`,
-    `tracking_never_lost`, `path_is_tracked_run`, `path_sound`, `path_sound_input`,
+    `tracking_never_lost`, `path_is_tracked_run`, `path_sound`, `path_sound_input`, `path_sound_anywhere`, `update_paths_are_real`,
     `path_sound_getpath`, `paths_complete_order`) -/
 example : (worldOf (inputSt inA)).Good ∧ EnvOK (worldOf (inputSt inA)) .empty ∧ Pre (worldOf (inputSt inA)) (inputSt inA)
     ∧ (∀ r q, (inputSt inA).id = .known r q → q = [])
@@ -217,7 +232,8 @@ theorem string_index_path_is_not_a_getpath :
 
 /-- `SameVal` cannot be strengthened to equality: on the float input `0.0`, `path(-.)` emits the
     path `[]` although the output of `-.` is `-0.0` and `getpath([])` is `0.0` (Go's `==` on
-    float64 in `pathIntact`). -/
+    float64 in `pathIntact`; the real code does the same:
+    `gojq -nc '(0.5-0.5) | [path(-.)], [-.], [getpath([])]'` prints `[[]]`, `[-0]`, `[0]`). -/
 theorem zero_sign_is_not_preserved :
     ((eval 30 cfgGo .empty (.call "path" [exNeg]) (inputSt (.num (.flt 0)))).outs.map (·.v) == [.arr []]) = true
     ∧ ((eval 26 cfgGo .empty exNeg (pathStart 26 (inputSt (.num (.flt 0))))).outs.map (·.v) == [.num .nzero]) = true
